@@ -86,6 +86,44 @@ def _movable(v: ast.AST) -> bool:
     return False
 
 
+def _fold_bool(t: ast.AST) -> ast.AST:
+    if isinstance(t, ast.Compare) and len(t.ops) == 1 and isinstance(t.left, ast.Constant) and isinstance(t.comparators[0], ast.Constant):
+        a, b = t.left.value, t.comparators[0].value
+        try:
+            v = {ast.Eq: lambda: a == b, ast.NotEq: lambda: a != b, ast.Lt: lambda: a < b, ast.LtE: lambda: a <= b, ast.Gt: lambda: a > b,
+                 ast.GtE: lambda: a >= b, ast.Is: lambda: a is b if (a is None or b is None or isinstance(a, bool) or isinstance(b, bool)) else None}.get(type(t.ops[0]), lambda: None)()
+        except TypeError:
+            v = None
+        if isinstance(v, bool):
+            return ast.copy_location(ast.Constant(value=v), t)
+        return t
+    if isinstance(t, ast.BoolOp):
+        vals = [_fold_bool(v) for v in t.values]
+        is_and = isinstance(t.op, ast.And)
+        keep = []
+        for v in vals:
+            if isinstance(v, ast.Constant) and isinstance(v.value, bool):
+                if v.value is (not is_and):      # False in `and` / True in `or`: decided (operands before it are pure tests here)
+                    if not keep:
+                        return v
+                    keep.append(v)
+                    break
+                continue                          # neutral element
+            keep.append(v)
+        if not keep:
+            return ast.copy_location(ast.Constant(value=is_and), t)
+        if isinstance(keep[-1], ast.Constant) and isinstance(keep[-1].value, bool) and all(_movable(k) or isinstance(k, ast.Compare) for k in keep[:-1]):
+            return keep[-1]                       # X and False  ==  False   when X has no effect
+        if len(keep) == 1:
+            return keep[0]
+        return ast.copy_location(ast.BoolOp(op=t.op, values=keep), t)
+    if isinstance(t, ast.UnaryOp) and isinstance(t.op, ast.Not):
+        v = _fold_bool(t.operand)
+        if isinstance(v, ast.Constant) and isinstance(v.value, bool):
+            return ast.copy_location(ast.Constant(value=not v.value), t)
+    return t
+
+
 class _Subst(ast.NodeTransformer):
     def __init__(self, m: dict[str, ast.AST]) -> None:
         self.m = m
@@ -252,6 +290,108 @@ class Normaliser:
             i += 1
         return stmts
 
+    # ------------------------------------------------------------ literal loops
+    def unroll_literal_loops(self, fn: ast.AST) -> None:
+        """for a, b in ((A1, B1), (A2, B2)): BODY   ==>   BODY[a:=A1, b:=B1]; BODY[a:=A2, b:=B2]
+        (literal sequence of at most 6 literal rows, no break/continue/else, loop variables used only inside the loop)"""
+        def rows_of(it: ast.AST, width: int | None):
+            if not isinstance(it, (ast.Tuple, ast.List)) or not (1 <= len(it.elts) <= 6):
+                return None
+            rows = []
+            for r in it.elts:
+                if width is None:
+                    if not _movable(r):
+                        return None
+                    rows.append([r])
+                else:
+                    if not isinstance(r, (ast.Tuple, ast.List)) or len(r.elts) != width or not all(_movable(x) for x in r.elts):
+                        return None
+                    rows.append(list(r.elts))
+            return rows
+
+        def visit(block: list[ast.stmt]) -> list[ast.stmt]:
+            out: list[ast.stmt] = []
+            for st in block:
+                for fld in ("body", "orelse", "finalbody"):
+                    v = getattr(st, fld, None)
+                    if isinstance(v, list) and v and isinstance(v[0], ast.stmt) and not isinstance(st, (ast.FunctionDef, ast.AsyncFunctionDef, ast.ClassDef)):
+                        setattr(st, fld, visit(v))
+                for h in getattr(st, "handlers", []) or []:
+                    h.body = visit(h.body)
+                if isinstance(st, ast.For) and not st.orelse and isinstance(st.target, (ast.Name, ast.Tuple)) \
+                        and not any(isinstance(x, (ast.Break, ast.Continue, ast.Yield, ast.YieldFrom, ast.Return)) for b in st.body for x in ast.walk(b)):
+                    names = [st.target.id] if isinstance(st.target, ast.Name) else [x.id for x in st.target.elts if isinstance(x, ast.Name)]
+                    width = None if isinstance(st.target, ast.Name) else len(st.target.elts)
+                    rows = rows_of(st.iter, width) if len(names) == (width or 1) else None
+                    outside = {x.id for t in ast.walk(fn) if t is not st for x in ([t] if isinstance(t, ast.Name) else [])} if rows else set()
+                    inside = {id(x) for x in ast.walk(st)}
+                    used_outside = any(isinstance(x, ast.Name) and x.id in names and id(x) not in inside for x in ast.walk(fn)) if rows else True
+                    stored_inside = any(isinstance(x, ast.Name) and x.id in names and isinstance(x.ctx, ast.Store) for b in st.body for x in ast.walk(b)) if rows else True
+                    if rows and not used_outside and not stored_inside:
+                        for r in rows:
+                            m = dict(zip(names, r))
+                            for b in st.body:
+                                nb = _Subst(m).visit(copy.deepcopy(b))
+                                out.extend(self.simplify_consts([ast.fix_missing_locations(nb)]))
+                        self.hit("literal-loop-unrolled")
+                        continue
+                out.append(st)
+            return out
+        fn.body = visit(fn.body)
+
+    def simplify_consts(self, block: list[ast.stmt]) -> list[ast.stmt]:
+        """fold comparisons of two literals and and/or with a literal operand; drop `if <literal>` arms"""
+        out: list[ast.stmt] = []
+        for st in block:
+            for fld in ("body", "orelse", "finalbody"):
+                v = getattr(st, fld, None)
+                if isinstance(v, list) and v and isinstance(v[0], ast.stmt):
+                    setattr(st, fld, self.simplify_consts(v))
+            if isinstance(st, ast.If):
+                st.test = _fold_bool(st.test)
+                if isinstance(st.test, ast.Constant):
+                    out.extend(st.body if st.test.value else st.orelse)
+                    continue
+            out.append(st)
+        return out
+
+    def list_builders(self, fn: ast.AST) -> None:
+        """L = []; ...; L.append(X1); ...; L.append(X2); ...; a, b = L      ==>     ...; a = X1; ...; b = X2; ...
+        (L a local used for nothing else; a, b simple names not otherwise touched between the first append and the unpack)"""
+        def visit(block: list[ast.stmt]) -> None:
+            for st in block:
+                for fld in ("body", "orelse", "finalbody"):
+                    v = getattr(st, fld, None)
+                    if isinstance(v, list) and v and isinstance(v[0], ast.stmt) and not isinstance(st, (ast.FunctionDef, ast.AsyncFunctionDef, ast.ClassDef)):
+                        visit(v)
+                for h in getattr(st, "handlers", []) or []:
+                    visit(h.body)
+            for i, st in enumerate(block):
+                if not (isinstance(st, ast.Assign) and len(st.targets) == 1 and isinstance(st.targets[0], ast.Name)
+                        and isinstance(st.value, ast.List) and not st.value.elts):
+                    continue
+                L = st.targets[0].id
+                uses = [x for x in ast.walk(fn) if isinstance(x, ast.Name) and x.id == L]
+                apps = [(k, t) for k, t in enumerate(block) if k > i and isinstance(t, ast.Expr) and isinstance(t.value, ast.Call)
+                        and isinstance(t.value.func, ast.Attribute) and t.value.func.attr == "append" and isinstance(t.value.func.value, ast.Name)
+                        and t.value.func.value.id == L and len(t.value.args) == 1 and not t.value.keywords]
+                unp = [(k, t) for k, t in enumerate(block) if k > i and isinstance(t, ast.Assign) and len(t.targets) == 1 and isinstance(t.targets[0], ast.Tuple)
+                       and isinstance(t.value, ast.Name) and t.value.id == L and all(isinstance(x, ast.Name) for x in t.targets[0].elts)]
+                if len(unp) != 1 or not apps or len(uses) != 1 + len(apps) + 1 or len(unp[0][1].targets[0].elts) != len(apps) or apps[-1][0] > unp[0][0]:
+                    continue
+                tnames = [x.id for x in unp[0][1].targets[0].elts]
+                between = block[apps[0][0]:unp[0][0]]
+                touched = {x.id for t in between for x in ast.walk(t) if isinstance(x, ast.Name)}
+                if any(n in touched for n in tnames) or len(set(tnames)) != len(tnames):
+                    continue
+                for (k, t), n in zip(apps, tnames):
+                    block[k] = ast.fix_missing_locations(ast.copy_location(ast.Assign(targets=[ast.Name(id=n, ctx=ast.Store())], value=t.value.args[0]), t))
+                del block[unp[0][0]]
+                del block[i]
+                self.hit("list-builder->assignments")
+                return visit(block)
+        visit(fn.body)
+
     def lookup_or_return(self, body: list[ast.stmt]) -> list[ast.stmt]:
         """function body:   try: T = D.pop(K) | D[K]            T = D.pop(K, None) | D.get(K)
                             except KeyError: return      ==>    if T is not None: REST
@@ -317,6 +457,8 @@ class Normaliser:
                     k.value = self.expr(k.value)
         if isinstance(st, (ast.FunctionDef, ast.AsyncFunctionDef)):
             st.body = self.lookup_or_return(st.body)
+            self.unroll_literal_loops(st)
+            self.list_builders(st)
         if isinstance(st, ast.Try):
             r = self.try_lookup(st)
             if r is not None:
